@@ -56,6 +56,17 @@ func init() {
 			return c08Parse(c, cs, "json", mustJSON(cs))
 		})
 	}
+	harness.RegisterReplayer("C08/cycles", func(raw json.RawMessage) string {
+		cs, err := unJSON[treeCase](raw)
+		if err != nil {
+			return "bad case: " + err.Error()
+		}
+		c := harness.New(nopTB{}, "C08", "replay", "")
+		if tr := loadAndRender(c, cs); tr.Panic != nil {
+			return "panic: " + tr.Panic.Value
+		}
+		return ""
+	})
 }
 
 // c08Parse runs lexer and parser on the source and checks the contract.
@@ -545,4 +556,75 @@ func TestC08_Trees(t *testing.T) {
 			c.Fail(rt, kindOf(f), cs, "template or error", f, f)
 		}
 	})
+}
+
+// TestC08_Cycles: files of a template directory that refer to each other in a
+// circle (components, layouts, a page using itself) are content like any other:
+// loading and rendering return.
+func TestC08_Cycles(t *testing.T) {
+	c := harness.New(t, "C08", "cycles",
+		"every template directory of 1..3 files f0..f2 in which each file holds one reference to one of the files (itself included) or none: @component(\"fK\") with and without a slot body, or @use(\"fK\") with an @insert; some files also declare a @slot / @reserve so that they can be the target. NewTemplate and String of every name must return (a template, an output or an error), never panic, hang or exhaust memory. Exhaustive. Non-trivial: the references form a cycle. Distinct by construction.")
+	defer c.Finish()
+	refs := func(k int) []string {
+		out := []string{"plain"}
+		for t := 0; t < k; t++ {
+			out = append(out, fmt.Sprintf("A@component(\"f%d\");B@slot", t), fmt.Sprintf("A@component(\"f%d\")\n@slot s@end\n@end;B@slot", t),
+				fmt.Sprintf("@use(\"f%d\")@insert(\"r\")x@end", t), fmt.Sprintf("@use(\"f%d\")@insert(\"r\")x@end<l>@reserve(\"r\")</l>", t))
+		}
+		return out
+	}
+	idx := 0
+	for k := 1; k <= 3; k++ {
+		opts := refs(k)
+		choice := make([]int, k)
+		var rec func(i int)
+		rec = func(i int) {
+			if i == k {
+				idx++
+				if !harness.Mine(idx) {
+					return
+				}
+				files := map[string]string{}
+				cyc := false
+				target := make([]int, k)
+				for f := 0; f < k; f++ {
+					files[fmt.Sprintf("f%d", f)] = opts[choice[f]]
+					target[f] = -1
+					if choice[f] > 0 {
+						target[f] = (choice[f] - 1) / 4
+					}
+				}
+				for f := 0; f < k; f++ {
+					seen := map[int]bool{}
+					for x := f; x >= 0 && !seen[x]; x = target[x] {
+						seen[x] = true
+						if target[x] == f {
+							cyc = true
+						}
+					}
+				}
+				c.CaseEnum(cyc, fmt.Sprintf("files:%d", k), fmt.Sprintf("cycle:%v", cyc))
+				if cyc && idx%53 == 0 {
+					c.Sample(files)
+				}
+				for f := 0; f < k; f++ {
+					cs := treeCase{Files: files, Dir: "t", Ext: ".tw", Page: fmt.Sprintf("f%d", f)}
+					tr := loadAndRender(c, cs)
+					if tr.Panic != nil {
+						c.Fail(t, "panic", cs, "load and render return", tr, "panic: "+tr.Panic.Value)
+					}
+					if tr.LoadErr != "" {
+						break // the same for every page
+					}
+				}
+				return
+			}
+			for o := range opts {
+				choice[i] = o
+				rec(i + 1)
+			}
+		}
+		rec(0)
+	}
+	c.ExhaustivePart("1..3 files x (4 reference forms x target file + none) per file")
 }
